@@ -3,6 +3,7 @@ package main
 import (
 	"bytes"
 	"fmt"
+	stdslog "log/slog"
 	"os"
 	"path/filepath"
 	"runtime"
@@ -13,6 +14,7 @@ import (
 	"github.com/hedzr/logg/slog"
 
 	"verifharness/gen"
+	"verifharness/mon"
 )
 
 func init() { reg("C09", "chdir", c09chdir); reg("C09", "parallel", c09parallel) }
@@ -241,3 +243,100 @@ func c09parallel(c *Ctx) {
 type keepW struct{ b []byte }
 
 func (w *keepW) Write(p []byte) (int, error) { w.b = append(w.b, p...); return len(p), nil }
+
+func init() { reg("C09", "sharedhandler", c09sharedHandler) }
+
+// c09sharedHandler: ONE log/slog handler family (a base handler derived with WithGroup / WithAttrs steps) shared by all
+// goroutines, as an application's request handlers share theirs. Every goroutine owns one hand-built record (its own
+// instant, message and attributes); it is formatted once while the process is quiet and then replayed while the others
+// replay theirs through the same handler. Oracle: every payload at the (shared, thread-safe) destination equals the quiet
+// payload of the record it carries. The race children run the same under the race detector.
+func c09sharedHandler(c *Ctx) {
+	c.Each(func(idx int, r *gen.R) {
+		restore := withFlags(0, slog.Lcaller)
+		defer restore()
+		G := []int{2, 4, 8, 16}[idx%4]
+		N := []int{300, 1000, 100}[idx%3]
+		if c.X("race", "") != "" {
+			N /= 4
+		}
+		old := runtime.GOMAXPROCS([]int{4, 16, 2}[(idx/4)%3])
+		defer runtime.GOMAXPROCS(old)
+		f := Format(idx % 3)
+		log := mon.NewLog()
+		w := mon.New(log, "W", mon.ShapePlain)
+		lg := newRoot("shared", f, w, slog.AlwaysLevel)
+		var h stdslog.Handler = slog.NewSlogHandler(lg, &slog.HandlerOptions{NoColor: f != FColor, JSON: f == FJSON, NoSource: true, Level: slog.PanicLevel})
+		var steps []string
+		for i, k := range []int{idx % 5, (idx / 5) % 5, (idx / 25) % 5} {
+			switch k {
+			case 1, 2:
+				h = h.WithGroup(fmt.Sprintf("g%d", i))
+				steps = append(steps, "WithGroup")
+			case 3:
+				h = h.WithAttrs([]stdslog.Attr{stdslog.Int(fmt.Sprintf("a%d", i), i)})
+				steps = append(steps, "WithAttrs")
+			}
+		}
+		desc := map[string]any{"goroutines": G, "replays_each": N, "format": f.String(), "derivation": steps}
+		recs := make([]stdslog.Record, G)
+		refs := make([][]byte, G)
+		for g := range recs {
+			rec := stdslog.NewRecord(r.Time(), stdslog.LevelInfo, fmt.Sprintf("rec-of-goroutine-%d.", g), 0)
+			rec.AddAttrs(stdslog.Int("id", g), stdslog.String("who", fmt.Sprintf("g%d", g)), stdslog.Group("in", stdslog.Int("n", g*7)))
+			recs[g] = rec
+			log.Reset()
+			_ = h.Handle(bg, rec)
+			ws := log.Writes("W")
+			if len(ws) != 1 {
+				c.R.Violation(idx, "bytes-differ", "C09/shared-handler/quiet", fmt.Sprintf("the quiet call produced %d payloads", len(ws)), desc)
+				return
+			}
+			refs[g] = ws[0].Data
+		}
+		log.Reset()
+		var wg sync.WaitGroup
+		start := make(chan struct{})
+		for g := 0; g < G; g++ {
+			g := g
+			wg.Add(1)
+			go func() {
+				defer wg.Done()
+				<-start
+				for k := 0; k < N; k++ {
+					_ = h.Handle(bg, recs[g].Clone())
+				}
+			}()
+		}
+		close(start)
+		wg.Wait()
+		c.R.Add("shared_handler_replays", int64(G*N))
+		seen := 0
+		for _, e := range log.Writes("W") {
+			seen++
+			g := -1
+			for i := range refs {
+				if bytes.Contains(e.Data, []byte(fmt.Sprintf("rec-of-goroutine-%d.", i))) {
+					g = i
+					break
+				}
+			}
+			if g < 0 || !bytes.Equal(e.Data, refs[g]) {
+				ref := ""
+				if g >= 0 {
+					ref = q(clip(string(refs[g]), 500))
+				}
+				c.R.Violation(idx, "bytes-differ", "C09/bytes-differ/shared-handler", fmt.Sprintf("a record replayed through a handler that %d goroutines share (each with a record of its own) differs from what the same call printed while the process was quiet:\n quiet:   %s\n replay:  %s", G, ref, q(clip(string(e.Data), 500))), desc)
+				return
+			}
+		}
+		if seen != G*N {
+			c.R.Violation(idx, "bytes-differ", "C09/shared-handler/count", fmt.Sprintf("%d replays, %d payloads", G*N, seen), desc)
+			return
+		}
+		c.R.NonTrivial("sharedhandler", idx, G, N)
+		if c.R.WantSample() {
+			c.R.Sample(idx, desc, map[string]any{"bytes": string(clipB(refs[0], 200))})
+		}
+	})
+}
